@@ -602,6 +602,7 @@ class Interp:
         if kind in self._FACT_KINDS:
             event.data['facts'] = dict(st.facts)
         event.data['fid'] = fr.fid
+        event.data['pos'] = len(st.events)
         if fr.bindings is not None:
             event.data['bind'] = fr.bindings
         st.events.append(event)
